@@ -3,6 +3,7 @@ from .. import common, progcheck
 from ..framework import Exploration, Violation
 from ..gen import progs
 from ..propsbase import *
+from ..gen import progs_c07x
 
 ASSUMPTIONS = ["bodies are drawn from every operator and assertion with operands valid and invalid for the body (out of range, failing "
                "assertion, inexact and zero division), guard depth 1-3, both guard values at every level, conditions of kind secret int, "
@@ -10,7 +11,14 @@ ASSUMPTIONS = ["bodies are drawn from every operator and assertion with operands
                "nested regions whose INNER condition is a raw secret integer outside {0,1} (5, -2, 2, 3, -1) below valid outer conditions: with a "
                "false outer guard, entering the inner region is dead code and must not raise (add_guard tolerates the value while errors are "
                "suppressed); the entry itself (instruction genter) is judged like any other instruction of the dead region",
-               "transparency is checked against the unguarded twin: the same program with the region markers removed"]
+               "transparency is checked against the unguarded twin: the same program with the region markers removed",
+               "histories (gen/progs_c07x.py): 1-3 regions (false; false nested in true; true nested in false; false then true; true then "
+               "false; two false; true; false with a body invalid for itself) are entered and LEFT, then one operation meets a value "
+               "that is invalid for it (out-of-range comparison / to_bits / assert_positive, failing assertion, inexact and zero "
+               "division, assert_zero / assert_nonzero / assert_range violated) or a valid control, unguarded or inside a fresh region "
+               "whose condition is 1: the tail must end exactly as in the twin from which the whole history is blanked (same exception "
+               "class at the same instruction, else the same values), every recorded constraint must hold when the run completes, and "
+               "the program is model-compared at V+S+W; tail operands are created before the history"]
 PARTIAL = []
 LEVELS = "VSW"
 VALUE_ERRORS = ("AssertionError", "ValueError", "ZeroDivisionError")
@@ -33,11 +41,55 @@ def guard_values(rec, i):
     return vals
 
 
+def history_block(ctx, ex, n):
+    """regions entered and left, then code that meets an invalid value (see gen/progs_c07x.py)"""
+    ncomb = len(progs_c07x.HISTORIES) * len(progs_c07x.TAILS)
+    cases = [progs_c07x.history_case(ctx.rnd, f"c07h_{i}", k=i if i < ncomb else None) for i in range(n)]
+    recs = execute_all(cases)
+    twins = execute_all([progs_c07x.without_history(c) for c in cases], with_model=False)
+    for r, u in zip(recs, twins):
+        account(ex, r)
+        correspond(ex, r, LEVELS)
+        m = r.case.meta
+        ex.count(f"history:{m['history']}"); ex.count(f"history-tail:{m['tail']}:{m['place']}")
+        ex.distinct.add(("history", m["history"], m["tail"], m["place"], r.case.cfg["bl"], r.errcls))
+        if u.harness_error:
+            raise common.Infra(u.py_raw[:400])
+        s, e = m["span"]
+        sig = {"dev": "history-changes-later-code", "history": m["history"], "tail": m["tail"], "place": m["place"]}
+        rp = {"case": r.case.line(), "without_history": u.case.line()}
+        if not r.ok and s <= r.errpos < e:
+            vals = guard_values(r, r.errpos)
+            ex.violations.append(Violation(dict(sig, dev="raises-inside-history", error=r.errcls, effective_guard=int(all(v == 1 for v in vals))),
+                                           f"{r.case.instrs[r.errpos]} inside the history raises {r.errcls} (guard values {vals})", rp))
+            continue
+        if (r.errcls, r.errpos) != (u.errcls, u.errpos):
+            ex.violations.append(Violation(dict(sig, error_without_history=u.errcls or "none", error_with_history=r.errcls or "none"),
+                                           f"after the history `{m['history']}` was entered and left, the tail `{r.case.instrs[m['tail_at']]}` "
+                                           f"({m['tail']}, {m['place']}) ends with {r.status}; without the history it ends with {u.status}", rp))
+        else:
+            for i in range(e, min(len(r.regs), len(u.regs))):
+                if progcheck.strip_lc(r.regs[i]) != progcheck.strip_lc(u.regs[i]):
+                    ex.violations.append(Violation(dict(sig, dev="history-changes-later-values"),
+                                                   f"r{i} ({r.case.instrs[i]}): {progcheck.strip_lc(r.regs[i])[:60]} after the history "
+                                                   f"`{m['history']}`, {progcheck.strip_lc(u.regs[i])[:60]} without it", rp))
+                    break
+        if r.ok and r.unsat:
+            k = r.unsat[0]
+            ex.violations.append(Violation({"dev": "unsatisfied", "history": m["history"], "tail": m["tail"]},
+                                           f"constraint #{k} ({r.cons[k][:100]}) is not satisfied by the recorded witness after the history "
+                                           f"`{m['history']}` and the tail `{r.case.instrs[m['tail_at']]}`", rp))
+        if r.ok and r.incoh:
+            ex.violations.append(Violation({"dev": "incoherent", "history": m["history"], "tail": m["tail"]},
+                                           f"r{r.incoh[0]} ({r.case.instrs[r.incoh[0]]}) reports a value that differs from its wire expression", rp))
+
+
 def explore(ctx, extended=False, focus=None):
     ex = Exploration()
     ex.rule = ("guarded programs (see assumptions) on the real code: (1) under a false effective guard no value-caused exception; "
                "(2) every constraint satisfied by the recorded witness when the run completes; (3) under true guards: same values and "
-               "same error class as the unguarded twin; plus V+S+W correspondence with the model; distinct = (body operators, guard kind, "
+               "same error class as the unguarded twin; (4) histories: regions entered and left, then an operation on a value invalid "
+               "for it, compared with the twin without the history; plus V+S+W correspondence with the model; distinct = (body operators, guard kind, "
                "guard values, bitlength, error class)")
     n = ctx.n(3000, 40000) * (3 if extended else 1)
     cases = corpus_cases("C07") + [progs.guarded_case(ctx.rnd, f"c07_{i}") for i in range(n)]
@@ -101,6 +153,7 @@ def explore(ctx, extended=False, focus=None):
                         break
         if len(ex.samples) < 6 and r.cons:
             ex.samples.append(r.case.line())
+    history_block(ctx, ex, max(2 * len(progs_c07x.HISTORIES) * len(progs_c07x.TAILS), n // 6))
     return ex
 
 
